@@ -94,7 +94,8 @@ CHECKS = {
             "and the back-link's href to the reference, and every bookmark not under a `!` mapping has an element with id = id_prefix ++ name (collapse keeps the set of ids and hrefs because it joins only elements with identical "
             "attributes; strip_empty keeps the attributes of exactly the nodes it keeps). The statement is also evaluated in Coq on every generated package. "
             "READER HALF of the first sentence (C10_reader_links, C10_docx_links): for every body in the domain of C01's reader theorem the link attached to each live item - innermost open HYPERLINK field, else the enclosing w:hyperlink "
-            "(relationship target with fragment replaced, or # anchor) - is what a specification on the XML alone prescribes, the field state machine included (one instruction buffer, begin / separate / end in reading order). "
+            "(relationship target with fragment replaced, or # anchor) - is what a specification on the XML alone prescribes, the field state machine included (one instruction buffer, begin / separate / end in reading order); END TO END (C10_xml_link_text): after strip_empty and collapse every character of the output sits under an anchor whose href is the one that specification assigns "
+            "(relationship target with fragment replaced, field URL, # ++ id_prefix ++ anchor) and under none when it assigns none - for bodies without note / comment references, style maps without `!`, :separator and href-carrying tags (necessary: checked counterexample). "
             "Oracle: every href in the output is a link target of the document or resolves to an id.",
             BASE_NOTE, "DESIGN.md §5 C10, §15"),
     "C11": ("proof",
